@@ -13,6 +13,7 @@ import (
 	"sync"
 	"sync/atomic"
 	"testing"
+	"testing/synctest"
 	"time"
 
 	"github.com/smartcontractkit/chainlink-automation/pkg/v3/stores"
@@ -29,13 +30,19 @@ import (
 // driver judges; the harness only records.
 
 type c11StressIn struct {
-	Seed   uint64  `json:"seed"`
-	Round  int     `json:"round"`
-	T      uint8   `json:"t"`
-	Init   []JProp `json:"init"`   // pending at the start
+	Seed  uint64 `json:"seed"`
+	Round int    `json:"round"`
+	T     uint8  `json:"t"`
+	// Old is added first; then the (virtual) clock advances by Age; then Init is added.  No view happens
+	// before the concurrent phase, so records of Old that are past their expiry are still in the store.
+	Old    []JProp `json:"old"`
+	Age    int64   `json:"age"`    // nanoseconds: 0, hours, exactly the 24 h expiry, 1 ns more, 25 h
+	Init   []JProp `json:"init"`   // pending (fresh) at the start of the concurrent phase
 	Remove []JProp `json:"remove"` // removed one by one, in this order, by one goroutine (all are in Init)
-	Add    []JProp `json:"add"`    // added one by one, in this order, by another goroutine (none is in Init)
-	Views  int     `json:"views"`  // how many of the concurrent views are recorded
+	// added one by one, in this order, by another goroutine: new work ids and re-additions of work ids of
+	// Old with the identical proposal (the flows propose the same work again); none is in Init
+	Add   []JProp `json:"add"`
+	Views int     `json:"views"` // how many of the concurrent views are recorded
 }
 
 type c11StressView struct {
@@ -51,13 +58,14 @@ type c11StressOut struct {
 	Views []c11StressView `json:"views"`
 }
 
-// c11StressInputs builds the rounds of one run: both pending sets, sizes varied.
+// c11StressInputs builds the rounds of one run: both pending sets, sizes and ages varied.
 func c11StressInputs(seed uint64, rounds int) []c11Input {
 	r := NewRng(seed ^ 0x57e55)
 	out := make([]c11Input, 0, rounds)
+	ages := []int64{0, int64(time.Hour), c11MetaExpiry, c11MetaExpiry + 1, 25 * int64(time.Hour), 25 * int64(time.Hour)}
 	for k := 0; k < rounds; k++ {
 		ty := uint8(types.LogTrigger)
-		if k%3 == 2 {
+		if k%2 == 1 {
 			ty = uint8(types.ConditionTrigger)
 		}
 		ni := []int{150, 250, 400}[r.Intn(3)]
@@ -66,14 +74,32 @@ func c11StressInputs(seed uint64, rounds int) []c11Input {
 			return toJProp(ocr2keepers.CoordinatedBlockProposal{UpkeepID: ocr2keepers.UpkeepIdentifier(simutil.NewUpkeepID(r.Bytes(8), ty)),
 				Trigger: ocr2keepers.Trigger{BlockNumber: 100}, WorkID: w})
 		}
+		// insertion order unrelated to key order
+		if k%3 != 0 {
+			st.Age = ages[r.Intn(len(ages))]
+			for i, no := 0, []int{100, 400, 1200}[r.Intn(3)]; i < no; i++ {
+				st.Old = append(st.Old, mk(fmt.Sprintf("o%04d", r.Intn(10000)*10000+i)))
+			}
+		}
 		for i := 0; i < ni; i++ {
-			st.Init = append(st.Init, mk(fmt.Sprintf("p%04d", r.Intn(10000)*1000+i))) // insertion order unrelated to key order
+			st.Init = append(st.Init, mk(fmt.Sprintf("p%04d", r.Intn(10000)*10000+i)))
 		}
 		for _, i := range r.Perm(ni)[:ni/2] {
 			st.Remove = append(st.Remove, st.Init[i])
 		}
-		for i := 0; i < ni; i++ {
-			st.Add = append(st.Add, mk(fmt.Sprintf("n%04d", r.Intn(10000)*1000+i)))
+		// what the flows add meanwhile: new work, and work that was proposed long ago proposed again
+		again := r.Perm(len(st.Old))
+		share := []int{0, 50, 100}[r.Intn(3)]
+		for i := 0; i < ni || len(again) > 0; i++ {
+			if len(again) > 0 && r.Chance(share) || i >= ni {
+				st.Add = append(st.Add, st.Old[again[0]])
+				again = again[1:]
+				if share == 0 {
+					again = nil
+				}
+				continue
+			}
+			st.Add = append(st.Add, mk(fmt.Sprintf("n%04d", r.Intn(10000)*10000+i)))
 		}
 		out = append(out, c11Input{Types: []c11Type{}, Ops: []c11Op{}, Mode: "stress", Stress: st})
 	}
@@ -85,6 +111,12 @@ func c11StressRound(in *c11StressIn) (c11StressOut, error) {
 	ms, err := stores.NewMetadataStore(&fakeBlocks{}, utg)
 	if err != nil {
 		return c11StressOut{}, err
+	}
+	if len(in.Old) > 0 {
+		ms.AddProposals(fromJProps(in.Old)...)
+	}
+	if in.Age > 0 {
+		time.Sleep(time.Duration(in.Age)) // virtual: the child runs the round inside a synctest bubble
 	}
 	ms.AddProposals(fromJProps(in.Init)...)
 	rem, add := fromJProps(in.Remove), fromJProps(in.Add)
@@ -150,7 +182,11 @@ func TestC11Child(t *testing.T) {
 	if err := json.Unmarshal(b, &in); err != nil {
 		t.Fatal(err)
 	}
-	res, err := c11StressRound(&in)
+	var res c11StressOut
+	// real goroutines on real processors; only the clock is virtual (ageing by hours costs nothing)
+	synctest.Test(t, func(t *testing.T) {
+		res, err = c11StressRound(&in)
+	})
 	if err != nil {
 		t.Fatal(err)
 	}
@@ -175,7 +211,7 @@ func c11RunStress(t *testing.T, in *c11Input) c11Impl {
 	})
 	st := in.Stress
 	seen := map[string]uint8{}
-	for _, l := range [][]JProp{st.Init, st.Remove, st.Add} {
+	for _, l := range [][]JProp{st.Old, st.Init, st.Remove, st.Add} {
 		for _, p := range l {
 			seen[p.UID] = uint8(utg(ocr2keepers.UpkeepIdentifier(b32(p.UID))))
 		}
